@@ -125,6 +125,12 @@ def run(ctx):
         miss = []
         if name not in FILELEN_EXC and 'psf_get_filelen(psf)' not in facts['psf->filelength']:
             miss.append('filelength not taken from psf_get_filelen (found %s)' % facts['psf->filelength'])
+        if name in FILELEN_EXC:
+            # the exception measures the file itself: psf->filelength = psf_ftell (psf) after psf_fseek (psf, 0, SEEK_END)
+            fl_as = [a for lv, a, r in assigned_lvalues(f, blk['then']) if lv == 'psf->filelength' and r is not None and f.s(r) == 'psf_ftell(psf)']
+            ends = [c for c in f.calls('psf_fseek') if f.unwrap(f.args(c)[1]).get('v') == 0 and f.unwrap(f.args(c)[2]).get('v') == 2]
+            if not fl_as or not any(f.cfg.dominates(e_, a_) for e_ in ends for a_ in fl_as) or len(facts['psf->filelength']) != len(fl_as):
+                miss.append('filelength is not measured (psf_ftell after psf_fseek to SEEK_END): found %s — the current write position is not the file length once the handle seeks (SFM_RDWR)' % facts['psf->filelength'])
         if '(psf->filelength - psf->dataoffset)' not in facts['psf->datalength']:
             miss.append('datalength not recomputed as filelength - dataoffset (found %s)' % facts['psf->datalength'])
         if name not in FRAMES_EXC and '(psf->datalength / (psf->bytewidth * psf->sf.channels))' not in facts['psf->sf.frames']:
